@@ -118,6 +118,15 @@ def corr(rep: C.Report, tier: str):
             bad.append((ln.split()[0], got[:4], [float(x) for x in ex[:4]]))
     rep.obligation("correspondence Model.EOM(Float) = real EOM.wallProfile/plasmaVelocity/temperatureProfileEqLHS/_updateGrid/action kinetic/deltaToTmunu",
                    "correspondence", not bad, f"{len(lines)} calls; {bad[:3]}")
+    tm_bad = [b for b in bad if b[0] == "tmunu"]
+    if tm_bad:
+        # Props.C04 (T04.3) proves the model value to BE the 30/33 component of the boosted plasma-frame tensor: a disagreement is a failing input
+        ln = next(l_ for l_ in lines if l_.startswith("tmunu") and any(abs(C.b2f(int(t)) - 0) >= 0 for t in l_.split()[1:2]))
+        rep.violation("EOM.deltaToTmunu (the out-of-equilibrium T30/T33 that enter the profile equations) differs from the boosted plasma-frame tensor "
+                      "assembled from the same moments (Props.C04 T04.3)",
+                      {"real_vs_model(first values)": [list(map(float, tm_bad[0][2])), list(map(float, tm_bad[0][1]))],
+                       "one_input(vmid, nparticles, [dofs, msq, D00, D02, D20, D11]*)": [C.b2f(int(t)) if i != 1 else int(t) for i, t in enumerate(ln.split()[1:])]},
+                      finding_key="C04:tmunu")
     # branch logic of findPlasmaProfilePoint: the REAL method on scripted left-hand sides (parabolas) with minimize_scalar / root_scalar stubs
     lines, expect, kinds = [], [], []
     for _ in range(400 if tier == "quick" else 6000):
